@@ -28,7 +28,11 @@ Models   == {"plain", "delays", "rules", "both", "decay1", "inert"}   \* inert: 
 \* ---- the five test models as data: species in model order, initial state, assignment rules
 \* (target index, coefficient vector, constant) applied in declaration order at the initial instant
 Species(m) == IF m = "decay1" THEN <<"X">> ELSE <<"A", "B", "C">>
-X0(m) == IF m = "decay1" THEN <<5>> ELSE IF m = "inert" THEN <<0, 0, 0>> ELSE <<3, 1, 0>>
+\* e: the initial condition was edited (Model.set_species) AFTER the interface handed to the entry point was built and
+\* before the call: the entry point reports the model's CURRENT initial condition whichever way the model reaches it
+X0(m, e) == IF m = "decay1" THEN (IF e THEN <<7>> ELSE <<5>>)
+            ELSE IF m = "inert" THEN <<0, 0, 0>>
+            ELSE IF e THEN <<4, 2, 0>> ELSE <<3, 1, 0>>
 Rules(m) == IF m \in {"rules", "both"}
             THEN << [tgt |-> 2, coef |-> <<2, 0, 0>>, k |-> 0],      \* start:  B = 2*A
                     [tgt |-> 3, coef |-> <<1, 1, 0>>, k |-> 1] >>    \* repeat: C = A + B + 1
@@ -39,9 +43,9 @@ Dot(c, x) == LET RECURSIVE D(_)
 RECURSIVE ApplyRules(_, _)
 ApplyRules(rs, x) == IF rs = << >> THEN x
                      ELSE ApplyRules(Tail(rs), [x EXCEPT ![Head(rs).tgt] = Dot(Head(rs).coef, x) + Head(rs).k])
-FirstRow(m) == ApplyRules(Rules(m), X0(m))
+FirstRow(m, e) == ApplyRules(Rules(m), X0(m, e))
 
-VARIABLES opt,    \* the configuration: [src, stochastic, delay, safe, volume, dataframe, model]
+VARIABLES opt,    \* the configuration: [src, stochastic, delay, safe, volume, dataframe, model, edit]
           pc, iface, vol, sim, out
 
 vars == <<opt, pc, iface, vol, sim, out>>
@@ -50,7 +54,7 @@ NoOut == [kind |-> "none", nrows |-> 0, volcol |-> "no", labelled |-> FALSE, tax
           first |-> << >>, divided |-> FALSE, queue |-> FALSE]
 
 Init == /\ opt \in [src : Sources, stochastic : BOOLEAN, delay : Delays, safe : BOOLEAN,
-                    volume : Volumes, dataframe : BOOLEAN, model : Models]
+                    volume : Volumes, dataframe : BOOLEAN, model : Models, edit : BOOLEAN]
         /\ pc = "CheckArgs" /\ iface = "none" /\ vol = "unset" /\ sim = "none" /\ out = NoOut
 
 \* "if Model is None and Interface is None: raise ValueError ... elif both: raise ValueError"
@@ -92,7 +96,7 @@ Run == /\ pc = "Run"
        /\ LET rows == IF VolumeSim /\ vol = "dividing" THEN DivRows ELSE NT IN
           out' = [kind |-> "result", nrows |-> rows, taxis |-> rows,
                   volcol |-> IF VolumeSim THEN "yes" ELSE IF sim = "Deterministic" /\ vol # "none" THEN "either" ELSE "no",
-                  labelled |-> FALSE, first |-> FirstRow(opt.model),
+                  labelled |-> FALSE, first |-> FirstRow(opt.model, opt.edit),
                   divided |-> (VolumeSim /\ vol = "dividing"),
                   queue |-> (sim \in {"DelaySSA", "DelayVolumeSSA"})]
        /\ pc' = "Convert"
@@ -125,5 +129,5 @@ FirstRowRule == (pc = "done" /\ out.kind = "result" /\ opt.model \in {"rules", "
                    out.first[3] = out.first[1] + out.first[2] + 1 /\ out.first[2] = 2 * out.first[1]
 
 Emit == (pc = "done") => PrintT(ToJson([opt |-> opt, iface |-> iface, vol |-> vol, sim |-> sim, out |-> out,
-                                         species |-> Species(opt.model), x0 |-> X0(opt.model), nt |-> NT]))
+                                         species |-> Species(opt.model), x0 |-> X0(opt.model, opt.edit), nt |-> NT]))
 =============================================================================
